@@ -104,11 +104,28 @@ ROUND4 = {
  "C20": " Timed scripts also contain decisions of the manager's choke rotation (Rotate) and interest changes of the peer: a Choke/Unchoke written by the client is not a sign of life of the peer.",
 }
 
+# additions after the fifth round of seeded changes
+ROUND5 = {
+ "C02": " Further state invariant: a peer that unchokes us and has announced a piece nobody is fetching has a request outstanding (an idle connection is otherwise masked by the keep-alive limit plus reconnect).",
+ "C03": " Plus realistic piece sizes (16384; thorough 8192, 8193, 20000, 65536): total 2p+5, files = the segments between every choice of <= 2 (3) cut points from offsets around the piece boundaries, the 8 KiB mark and interior points.",
+ "C05": " Four more info dictionaries carry zero-padded string lengths in front of a name / pieces string / path ending in 'e' bytes.",
+ "C06": " The loopback conformance replays treat a panic of the subject as an outcome (compared with the in-memory run), not as an engine failure.",
+ "C08": " -while-downloading variants: the client owns nothing and a second connection completes pieces at any point (the manager announces them to every connection task) while the connection under test goes through good / corrupted handshakes.",
+ "C09": " The second-peer scenario also has a leftover file under the name of the lacked piece, Pu (that piece gets reserved for the other peer) and requests for it.",
+ "C10": " tiling-<len>-mind12: 12 pieces (outside end game), the peer advertises piece 0 only and may, mid-piece, send the same Bitfield again and Have(1): no request may name another piece while the current one is only partly requested.",
+ "C11": " -busy scenarios: the manager may be busy once per history (Pause ... Resume in the pumped world: commands of the tasks queue up and are worked off in arrival order without any task running in between), which produces 'Init handled, then a completion, before the task resumes'. The bitfield is judged against what the manager had been told when it built it; what it lacks must be announced.",
+ "C12": " Q<k>: the answer to a request the client has cancelled (it crossed the Cancel on the wire), and a single-piece gated scenario in which both peers are asked for the same piece.",
+ "C15": " Plus every byte string of length 0..=2 (65 793) as a bare value, a list element, a dictionary value and a dictionary key.",
+ "C16": " (5) wide documents: n = 1..=700 (thorough 3000) sibling containers at the top level, in a list, as dictionary values and inside a nested list, each followed by a nested container.",
+ "C17": " create_file cases also run over an existing <name>.torrent (after a create of a 0-byte file, and of a file two chunks longer with a longer tracker address).",
+ "C19": " Completion cases: during the outage P delivers every piece, the client drops P, the extractor runs and finishes while the tracker task still retries; a leecher probes that the manager keeps serving.",
+}
+
 def main():
     checks = []
     for pid in sorted(CHECKS):
         level, technique, engine, text, note, ref = CHECKS[pid]
-        text = text + ROUND3.get(pid, "") + ROUND4.get(pid, "")
+        text = text + ROUND3.get(pid, "") + ROUND4.get(pid, "") + ROUND5.get(pid, "")
         checks.append({
             "property_id": pid,
             "quick_cmd": "./check %s --tier quick" % pid,
